@@ -227,6 +227,6 @@ func replayDangling(run *vc.Run, dir string, w *chaosWitness) {
 			name = n
 		}
 	}
-	c := &danglingCase{profile: w.Profile, mut: &chaos.Mutation{Class: w.Class, Site: w.Site, Name: name, Benign: strings.HasPrefix(w.Class, "meta-key-only:")}, base: b.Designs[0], mutant: b.Designs[1]}
+	c := &danglingCase{profile: w.Profile, mut: &chaos.Mutation{Class: w.Class, Site: w.Site, Name: name, Benign: strings.HasPrefix(w.Class, "meta-key-only:") || strings.HasPrefix(w.Class, "inheritance-cycle:")}, base: b.Designs[0], mutant: b.Designs[1]}
 	judgeDangling(run, c, true)
 }
